@@ -104,6 +104,8 @@ func canon(x zygo.Sexp) string {
 			return "{}"
 		}
 		return "{hash:" + v.SexpString(nil) + "}"
+	case *zygo.SexpChar:
+		return v.SexpString(nil)
 	case *zygo.SexpComma:
 		return ","
 	case *zygo.SexpSemicolon:
